@@ -1,9 +1,286 @@
 import TaurexModel.Proto
+import TaurexModel.Interp
+import TaurexModel.Loaders
+import TaurexModel.Sanitize
+import TaurexModel.CacheSM
 
 namespace Taurex.Ops.C14
-open Taurex.Proto
+open Taurex.Proto Taurex.Interp Taurex.Loaders Taurex.Sanitize Taurex.CacheSM
 
-/-- operations of the C14 model served by `driver_c14` (filled in by the C14 check) -/
-def ops : List Op := []
+/-! wire helpers -/
+
+def str : P String := do
+  let t ← tok
+  pure (if t == "%e" then "" else t)
+
+def fS (s : String) : String := if s.isEmpty then "%e" else s
+
+def modeP : P Mode := do
+  let n ← nat
+  pure (if n == 0 then Mode.linear else Mode.exp)
+
+def l1 : P (List Float) := listOf flt
+def l2 : P (List (List Float)) := listOf l1
+def l3 : P (List (List (List Float))) := listOf l2
+def l4 : P (List (List (List (List Float)))) := listOf l3
+
+def f1 (l : List Float) : String := fList fF l
+def f2 (l : List (List Float)) : String := fList f1 l
+def f3 (l : List (List (List Float))) : String := fList f2 l
+def f4 (l : List (List (List (List Float)))) : String := fList f3 l
+
+def fXTab (tab : XTab Float) : String := s!"{f1 tab.wn} {f1 tab.t} {f1 tab.p} {f3 tab.x}"
+def fCTab (tab : CTab Float) : String := s!"{f1 tab.wn} {f1 tab.t} {f2 tab.x}"
+def fKTab (tab : KTab Float) : String := s!"{f1 tab.wn} {f1 tab.t} {f1 tab.p} {f4 tab.k} {f1 tab.weights}"
+
+def xtabP : P (XTab Float) := do
+  let wn ← l1; let t ← l1; let p ← l1; let x ← l3
+  pure { wn := wn, t := t, p := p, x := x }
+
+def ctabP : P (CTab Float) := do
+  let wn ← l1; let t ← l1; let x ← l2
+  pure { wn := wn, t := t, x := x }
+
+def ktabP : P (KTab Float) := do
+  let wn ← l1; let t ← l1; let p ← l1; let k ← l4; let w ← l1
+  pure { wn := wn, t := t, p := p, k := k, weights := w }
+
+/-! names -/
+
+/-- `c14.sanitize s` -/
+def sanitizeOp (args : List String) : Option String :=
+  run (do
+    let s ← str
+    pure (fS (sanitizeStr s))) args
+
+def nameFmtP : P NameFmt := do
+  let n ← nat
+  match n with
+  | 0 => pure .pickleXsec
+  | 1 => pure .exo
+  | 2 => pure .hdfK
+  | 3 => pure .pickleK
+  | 4 => pure .cia
+  | _ => failure
+
+/-- `c14.names fmt fname stored` → discovered name, object name -/
+def namesOp (args : List String) : Option String :=
+  run (do
+    let f ← nameFmtP
+    let fname ← str
+    let stored ← str
+    pure s!"{fS (String.ofList (discName f fname.toList))} {fS (String.ofList (objName f fname.toList stored.toList))}") args
+
+/-- `c14.stem fname` -/
+def stemOp (args : List String) : Option String :=
+  run (do
+    let fname ← str
+    pure (fS (String.ofList (stem fname.toList)))) args
+
+/-- `c14.unit fallback name` → optional factor -/
+def unitOp (args : List String) : Option String :=
+  run (do
+    let fb ← bool
+    let name ← str
+    pure (fOpt fF (unitFactor (α := Float) fb name))) args
+
+/-! cross-sections: decoded table followed by `opacity(T, P)` on the native grid -/
+
+def xsecOut (tab : XTab Float) (mode : Mode) (t p : Float) : String :=
+  s!"{fXTab tab} {f1 (tab.opacity mode t p)}"
+
+/-- `c14.dec_pickle wno t p(bar) xsecarr mode T P` -/
+def decPickleOp (args : List String) : Option String :=
+  run (do
+    let wno ← l1; let t ← l1; let p ← l1; let x ← l3
+    let mode ← modeP; let tt ← flt; let pp ← flt
+    pure (xsecOut (decPickle { wno := wno, t := t, p := p, xsecarr := x }) mode tt pp)) args
+
+/-- `c14.dec_hdf units bin_edges t p xsecarr mode T P` → `0` when the reader raises -/
+def decHdfOp (args : List String) : Option String :=
+  run (do
+    let units ← str
+    let wno ← l1; let t ← l1; let p ← l1; let x ← l3
+    let mode ← modeP; let tt ← flt; let pp ← flt
+    match decHdf { binEdges := wno, t := t, p := p, units := units, xsecarr := x, molName := "" } with
+    | none => pure "0"
+    | some tab => pure ("1 " ++ xsecOut tab mode tt pp)) args
+
+/-- `c14.dec_exo tiny trow prow body mode T P` -/
+def decExoOp (args : List String) : Option String :=
+  run (do
+    let tiny ← flt
+    let trow ← l1; let prow ← l1; let body ← l2
+    let mode ← modeP; let tt ← flt; let pp ← flt
+    pure (xsecOut (decExo tiny { trow := trow, prow := prow, body := body }) mode tt pp)) args
+
+/-- `c14.enc_pickle tab` → wno t p xsecarr -/
+def encPickleOp (args : List String) : Option String :=
+  run (do
+    let tab ← xtabP
+    let f := encPickle tab
+    pure s!"{f1 f.wno} {f1 f.t} {f1 f.p} {f3 f.xsecarr}") args
+
+/-- `c14.enc_hdf units tab` → bin_edges t p xsecarr (needs a known unit) -/
+def encHdfOp (args : List String) : Option String :=
+  run (do
+    let units ← str
+    let tab ← xtabP
+    match unitFactor (α := Float) true units with
+    | none => failure
+    | some c =>
+      let f := encHdf units c "" tab
+      pure s!"{f1 f.binEdges} {f1 f.t} {f1 f.p} {f3 f.xsecarr}") args
+
+/-- `c14.enc_exo tab` → trow prow body -/
+def encExoOp (args : List String) : Option String :=
+  run (do
+    let tab ← xtabP
+    let f := encExo tab
+    pure s!"{f1 f.trow} {f1 f.prow} {f2 f.body}") args
+
+/-! k-tables -/
+
+def ktabOut (tab : KTab Float) (mode : Mode) (t p : Float) : String :=
+  s!"{fKTab tab} {f2 (tab.opacity mode t p)}"
+
+/-- `c14.dec_kpickle bin_centers t p(bar) kcoeff weights mode T P` -/
+def decPickleKOp (args : List String) : Option String :=
+  run (do
+    let wn ← l1; let t ← l1; let p ← l1; let k ← l4; let w ← l1
+    let mode ← modeP; let tt ← flt; let pp ← flt
+    pure (ktabOut (decPickleK { binCenters := wn, ngauss := w.length, t := t, p := p, kcoeff := k,
+                                weights := w, name := "" }) mode tt pp)) args
+
+/-- `c14.dec_khdf units bin_centers t p kcoeff weights mode T P` -/
+def decHdfKOp (args : List String) : Option String :=
+  run (do
+    let units ← str
+    let wn ← l1; let t ← l1; let p ← l1; let k ← l4; let w ← l1
+    let mode ← modeP; let tt ← flt; let pp ← flt
+    match decHdfK { binCenters := wn, ngauss := w.length, t := t, p := p, units := units, kcoeff := k,
+                    weights := w } with
+    | none => pure "0"
+    | some tab => pure ("1 " ++ ktabOut tab mode tt pp)) args
+
+/-- `c14.enc_kpickle tab` → bin_centers ngauss t p kcoeff weights -/
+def encPickleKOp (args : List String) : Option String :=
+  run (do
+    let tab ← ktabP
+    let f := encPickleK "" tab
+    pure s!"{f1 f.binCenters} {f.ngauss} {f1 f.t} {f1 f.p} {f4 f.kcoeff} {f1 f.weights}") args
+
+/-- `c14.enc_khdf units tab` -/
+def encHdfKOp (args : List String) : Option String :=
+  run (do
+    let units ← str
+    let tab ← ktabP
+    match unitFactor (α := Float) true units with
+    | none => failure
+    | some c =>
+      let f := encHdfK units c tab
+      pure s!"{f1 f.binCenters} {f.ngauss} {f1 f.t} {f1 f.p} {f4 f.kcoeff} {f1 f.weights}") args
+
+/-! CIA: decoded table followed by `compute_cia(T)` -/
+
+def ciaOut (tab : CTab Float) (t : Float) : String := s!"{fCTab tab} {f1 (ciaCompute tab t)}"
+
+/-- `c14.dec_cia_pickle wno t xsecarr T` -/
+def decPickleCOp (args : List String) : Option String :=
+  run (do
+    let wn ← l1; let t ← l1; let x ← l2
+    let tt ← flt
+    pure (ciaOut (decPickleC { wno := wn, t := t, xsecarr := x }) tt)) args
+
+def pairP : P (Float × Float) := do
+  let a ← flt
+  let b ← flt
+  pure (a, b)
+
+def blockP : P (HBlock Float) := do
+  let wn0 ← flt; let wn1 ← flt; let temp ← flt; let mx ← flt
+  let pts ← listOf pairP
+  pure { pair := "", wn0 := wn0, wn1 := wn1, temp := temp, maxcia := mx, pts := pts }
+
+/-- `c14.dec_hitran blocks T`; block = wn0 wn1 T max pts -/
+def decHitranOp (args : List String) : Option String :=
+  run (do
+    let blocks ← listOf blockP
+    let tt ← flt
+    pure (ciaOut (decHitran blocks) tt)) args
+
+def fBlock (b : HBlock Float) : String :=
+  s!"{fF b.wn0} {fF b.wn1} {fF b.temp} {fF b.maxcia} {fList (fun (q : Float × Float) => s!"{fF q.1} {fF q.2}") b.pts}"
+
+/-- `c14.enc_hitran tab` → blocks -/
+def encHitranOp (args : List String) : Option String :=
+  run (do
+    let tab ← ctabP
+    pure (fList fBlock (encHitran "" tab))) args
+
+/-! cache state machine -/
+
+def fmtP : P Fmt := do
+  let n ← nat
+  match n with
+  | 0 => pure .hdf
+  | 1 => pure .pickle
+  | 2 => pure .exo
+  | 3 => pure .kpickle
+  | 4 => pure .khdf
+  | _ => failure
+
+def entryP : P FileEntry := do
+  let f ← fmtP; let id ← nat; let d ← str; let o ← str
+  pure { fmt := f, fileId := id, disc := d, obj := o }
+
+def dirP : P Dir := do
+  let b ← bool
+  let fl ← listOf entryP
+  pure { isDir := b, files := fl }
+
+def copP : P COp := do
+  let c ← nat
+  match c with
+  | 0 => do let m ← str; pure (.get m)
+  | 1 => do let p ← nat; pure (.setPath p)
+  | 2 => do let k ← nat; pure (.setInterp k)
+  | 3 => do let b ← bool; pure (.setMem b)
+  | 4 => pure .clear
+  | 5 => do let m ← str; let k ← nat; pure (.add m k)
+  | _ => failure
+
+def fResp : Resp → String
+  | .served o =>
+    let im := match o.inMem with | none => "0" | some false => "1" | some true => "2"
+    s!"0 {o.id} {fS o.mol} {o.mode} {im} {fOpt fN o.src}"
+  | .missing => "1"
+  | .done => "2"
+  | .notADir => "3"
+
+/-- responses with, after each step, the number of loads so far and the keys of the dictionary -/
+def traceOut (fs : List Dir) : CSt → List COp → List String
+  | _, [] => []
+  | s, op :: ops =>
+    let r := step fs s op
+    s!"{fResp r.2} {r.1.log.length} {fList fS (r.1.dict.map (·.1))}" :: traceOut fs r.1 ops
+
+/-- `c14.cache fs ops` → per step: response, #loads, dict keys; then the load log -/
+def cacheOp (args : List String) : Option String :=
+  run (do
+    let fs ← listOf dirP
+    let ops ← listOf copP
+    let fin := CacheSM.run fs CacheSM.init ops
+    let steps := traceOut fs CacheSM.init ops
+    pure s!"{fList id steps} {fList (fun (e : String × Nat) => s!"{fS e.1} {e.2}") fin.log}") args
+
+def ops : List Op :=
+  [("c14.sanitize", sanitizeOp), ("c14.names", namesOp), ("c14.stem", stemOp), ("c14.unit", unitOp),
+   ("c14.dec_pickle", decPickleOp), ("c14.dec_hdf", decHdfOp), ("c14.dec_exo", decExoOp),
+   ("c14.enc_pickle", encPickleOp), ("c14.enc_hdf", encHdfOp), ("c14.enc_exo", encExoOp),
+   ("c14.dec_kpickle", decPickleKOp), ("c14.dec_khdf", decHdfKOp),
+   ("c14.enc_kpickle", encPickleKOp), ("c14.enc_khdf", encHdfKOp),
+   ("c14.dec_cia_pickle", decPickleCOp), ("c14.dec_hitran", decHitranOp), ("c14.enc_hitran", encHitranOp),
+   ("c14.cache", cacheOp)]
 
 end Taurex.Ops.C14
